@@ -324,6 +324,41 @@ func (cu *culprits) ofLeftovers(lo []string, dev *vdev) string {
 	return class
 }
 
+// withoutGivenUpMaps: the configuration with the `ldap-attribute-map` line removed from EVERY host of the aaa-servers whose host line
+// in the target has none (the tool looks at the first host of a server group only).
+func withoutGivenUpMaps(d, spoc *vdev) (*vdev, bool) {
+	gone := map[string]bool{}
+	for _, x := range spoc.Blocks {
+		w := x.words()
+		if k, n := headKind(w); k == "aaa" && contains(w, "host") {
+			has := false
+			for _, s := range x.Subs {
+				if strings.HasPrefix(s, "ldap-attribute-map ") {
+					has = true
+				}
+			}
+			if !has {
+				gone[n] = true
+			}
+		}
+	}
+	c := d.clone()
+	changed := false
+	for _, x := range c.Blocks {
+		w := x.words()
+		if k, n := headKind(w); k == "aaa" && contains(w, "host") && gone[n] {
+			for j := 0; j < len(x.Subs); j++ {
+				if strings.HasPrefix(x.Subs[j], "ldap-attribute-map ") {
+					x.Subs = append(x.Subs[:j:j], x.Subs[j+1:]...)
+					j--
+					changed = true
+				}
+			}
+		}
+	}
+	return c, changed
+}
+
 // ofViews: the lines in which the two views differ are all `[crypto map interface X]` lines of maps of ONE culprit class.
 func (cu *culprits) ofViews(got, want string) string {
 	in := func(l []string) map[string]bool {
@@ -747,7 +782,11 @@ func run(ctx *Ctx) *Result {
 				}
 			}
 			if got := final.managedView(managed); got != wantView {
-				res.Fail(sig("not_converged", "culprit", cu.ofViews(got, wantView)), "after executing the script the managed part differs from the target:\n"+got+"-- want\n"+wantView+"-- script\n"+out, c)
+				culprit := cu.ofViews(got, wantView)
+				if f2, ch := withoutGivenUpMaps(final, c.spoc); culprit == "other" && ch && f2.managedView(managed) == wantView {
+					culprit = "ldap_attribute_map_left_on_further_hosts_of_aaa_server"
+				}
+				res.Fail(sig("not_converged", "culprit", culprit), "after executing the script the managed part differs from the target:\n"+got+"-- want\n"+wantView+"-- script\n"+out, c)
 				return
 			}
 			if lo := final.leftovers(); len(lo) > 0 {
@@ -872,7 +911,11 @@ func run(ctx *Ctx) *Result {
 					continue
 				}
 				if got := ex2.d.managedView(managed); got != wantView {
-					res.Fail(sig("resume_not_converged", "culprit", cu.ofViews(got, wantView)), fmt.Sprintf("%s: second run ends in\n%s-- want\n%s-- first script\n%s-- second script\n%s", where, got, wantView, out, out2), c)
+					culprit := cu.ofViews(got, wantView)
+					if f2, ch := withoutGivenUpMaps(ex2.d, c.spoc); culprit == "other" && ch && f2.managedView(managed) == wantView {
+						culprit = "ldap_attribute_map_left_on_further_hosts_of_aaa_server"
+					}
+					res.Fail(sig("resume_not_converged", "culprit", culprit), fmt.Sprintf("%s: second run ends in\n%s-- want\n%s-- first script\n%s-- second script\n%s", where, got, wantView, out, out2), c)
 					continue
 				}
 				if k%3 == 0 {
